@@ -31,8 +31,21 @@ Theorem C15_session_never_crashes : forall low_s tap_tweak_ok sha256 c n v, safe
   forall x, snd (Session.dbg_step low_s tap_tweak_ok sha256 c (steps low_s tap_tweak_ok sha256 c n v)) <> SCrash x.
 Proof. exact session_never_crashes. Qed.
 
+(* ... and not only steps: ANY sequence of the commands that touch the environment - step, rewind, exec <local script> - from a safe session
+   never ends a command in a crash outcome and keeps the session safe. The session invariant [ssafe] also covers the history: every snapshot
+   rewind can restore carries a live pbegincodehash and, for tapscript, an initialised weight budget. *)
+Theorem C15_commands_never_crash : forall low_s tap_tweak_ok sha256 c cms v, ssafe c v ->
+  snd (run_cmds low_s tap_tweak_ok sha256 c v cms) = false /\ ssafe c (fst (run_cmds low_s tap_tweak_ok sha256 c v cms)).
+Proof. exact commands_never_crash. Qed.
+Theorem C15_sessions_start_command_safe : forall c script stack succ ed t,
+  ((c_sigver c =? SV_BASE) || (c_sigver c =? SV_WITNESS_V0) || (c_sigver c =? SV_TAPROOT) = false -> ed_weight_init ed = true) ->
+  ssafe c (setup_env c script stack succ ed t).
+Proof. exact setup_env_ssafe. Qed.
+
 Print Assumptions C15_configuration_never_indexes_outside_the_funding_tx.
 Print Assumptions C15_step_keeps_environment_safe.
 Print Assumptions C15_session_never_crashes.
+Print Assumptions C15_commands_never_crash.
+Print Assumptions C15_sessions_start_command_safe.
 Print Assumptions C15_step_never_crashes.
 Print Assumptions C15_sessions_start_safe.
